@@ -667,8 +667,8 @@ def r_worker_unpickle(e, R):
             e.loc(f, getn.ast))
     for h in catchall:
         puts = [n for n in g.nodes for c in calls_in(n) if e.receiver_objs(f, c, ("put",)) & a.resq
-                and g.dominates(h, n) and c.args and isinstance(c.args[0], ast.Call)
-                and any(x[0] == "class" for x in e.pt.ev(f, c.args[0].func))]
+                and g.dominates(h, n) and c.args
+                and any(o[0] == "obj" and o[2] in e.prog.classes for o in e.objs(f, c.args[0]))]
         exits = [n for n in g.nodes if n.tag == "noreturn" and g.dominates(h, n)]
         nonzero = [n for n in exits if n.ast.value.args and isinstance(n.ast.value.args[0], ast.Constant)
                    and n.ast.value.args[0].value not in (0, None)]
@@ -681,8 +681,8 @@ def r_worker_unpickle(e, R):
         sent = set()
         for n in puts:
             for c in calls_in(n):
-                if c.args and isinstance(c.args[0], ast.Call):
-                    sent |= {x[1] for x in e.pt.ev(f, c.args[0].func) if x[0] == "class"}
+                if c.args:
+                    sent |= {o[2] for o in e.objs(f, c.args[0]) if o[0] == "obj" and o[2] in e.prog.classes}
         wf = e.prog.funcs[next(iter({x.qualname for x, _ in a.wait_calls}))]
         tested = set()
         for n in func_nodes(wf):
